@@ -55,6 +55,11 @@ impl GroupLocalProcessor {
     }
 
     fn should_merge(&self, first: &VariableAssignment, next: &mut VariableAssignment) -> bool {
+        if first.get_assignment_kind() != next.get_assignment_kind() {
+            // merging a `const` and a `local` declaration would change what can be assigned
+            return false;
+        }
+
         let first_value_count = first.values_len();
 
         if first.variables_len() > first_value_count && first_value_count != 0 {
